@@ -159,6 +159,7 @@ pub struct SerdeOut {
 
 pub fn run_serde_case(b: &SerdeBody) -> SerdeOut {
     ledger_reset();
+    crate::hashers::reset_instances();
     disarm_all();
     crate::hashers::set_current(b.hasher);
     let panic_fail = |e: Caught, what: String| {
